@@ -671,7 +671,7 @@ func L2() []Labeled {
 		}
 	}
 	// names pool in every name position
-	for ni, n := range []string{"Plain", "with space", "quo\"te", "co:lon", "Dotted.Name", "Ünï", "x-y", "_lead"} {
+	for ni, n := range []string{"Plain", "with space", "quo\"te", "co:lon", "Dotted.Name", "Ünï", "x-y", "_lead", "pct%off", "a%41b"} {
 		a := &App{Name: []string{n}, Types: []*TypeDecl{{Kind: "type", Name: "T", Fields: []*Field{{Name: "f", T: prim("int")}}}}}
 		out = append(out, Labeled{fmt.Sprintf("L2/name/app/%d", ni), &Spec{Apps: []*App{a}}})
 		a = &App{Name: []string{"Ns", n, "Leaf"}, Eps: []*Endpoint{{Kind: "simple", Name: "Ep"}}}
@@ -685,6 +685,17 @@ func L2() []Labeled {
 		{
 			a = &App{Name: []string{"A"}, Eps: []*Endpoint{{Kind: "simple", Name: n, Stmts: []*Stmt{{Kind: "action", Text: "x"}}}}}
 			out = append(out, Labeled{fmt.Sprintf("L2/name/ep/%d", ni), &Spec{Apps: []*App{a}}})
+		}
+		if n != "Dotted.Name" && n != "with space" && n != "co:lon" && n != "quo\"te" {
+			// REST positions: typed path variable, static segment, query parameter; endpoint parameter
+			a = &App{Name: []string{"A"}, Eps: []*Endpoint{{Kind: "rest", Method: "GET", Path: []PathSeg{{Static: "things"}, {Var: n, VarT: &TypeExpr{Prim: "int"}}, {Static: "tail"}}, Stmts: []*Stmt{{Kind: "action", Text: "x"}}}}}
+			out = append(out, Labeled{fmt.Sprintf("L2/name/pathvar/%d", ni), &Spec{Apps: []*App{a}}})
+			a = &App{Name: []string{"A"}, Eps: []*Endpoint{{Kind: "rest", Method: "GET", Path: []PathSeg{{Static: n}, {Var: "id", VarT: &TypeExpr{Prim: "int"}}}, Stmts: []*Stmt{{Kind: "action", Text: "x"}}}}}
+			out = append(out, Labeled{fmt.Sprintf("L2/name/static/%d", ni), &Spec{Apps: []*App{a}}})
+			a = &App{Name: []string{"A"}, Eps: []*Endpoint{{Kind: "rest", Method: "GET", Path: []PathSeg{{Static: "q"}}, Query: []QueryParam{{Name: n, T: TypeExpr{Prim: "int"}}, {Name: "second", T: TypeExpr{Prim: "string", Opt: true}}}, Stmts: []*Stmt{{Kind: "action", Text: "x"}}}}}
+			out = append(out, Labeled{fmt.Sprintf("L2/name/query/%d", ni), &Spec{Apps: []*App{a}}})
+			a = &App{Name: []string{"A"}, Eps: []*Endpoint{{Kind: "simple", Name: "Ep", Params: []*Param{{Name: n, T: TypeExpr{Prim: "int"}}}, Stmts: []*Stmt{{Kind: "action", Text: "x"}}}}}
+			out = append(out, Labeled{fmt.Sprintf("L2/name/param/%d", ni), &Spec{Apps: []*App{a}}})
 		}
 	}
 	return out
